@@ -3,7 +3,7 @@ use crate::{
         LmsTreeIdentifier, D_TOPSEED, HSS_COMPRESSED_USED_LEAFS_SIZE, ILEN, MAX_ALLOWED_HSS_LEVELS,
         MAX_HASH_SIZE, MAX_SEED_LEN, REF_IMPL_MAX_ALLOWED_HSS_LEVELS,
         REF_IMPL_MAX_PRIVATE_KEY_SIZE, SEED_CHILD_SEED, SEED_SIGNATURE_RANDOMIZER_SEED, TOPSEED_D,
-        TOPSEED_LEN, TOPSEED_SEED, TOPSEED_WHICH,
+        TOPSEED_LEN, TOPSEED_SEED, TOPSEED_WHICH, TREE_HEIGHTS, WINTERNITZ_PARAMETERS,
     },
     hasher::HashChain,
     hss::{definitions::HssPrivateKey, seed_derive::SeedDerive},
@@ -231,6 +231,13 @@ pub fn generate_signature_randomizer<H: HashChain>(
 
 const PARAM_SET_END: u8 = 0xff; // Marker for end of parameter set
 
+// The buffers are sized at build time for the configured maximum tree height and minimum
+// Winternitz parameter of each level (HBS_LMS_TREE_HEIGHTS, HBS_LMS_WINTERNITZ_PARAMETERS)
+fn is_supported_on_level<H: HashChain>(parameter: &HssParameter<H>, level: usize) -> bool {
+    parameter.get_lms_parameter().get_tree_height() as usize <= TREE_HEIGHTS[level]
+        && parameter.get_lmots_parameter().get_winternitz() as usize >= WINTERNITZ_PARAMETERS[level]
+}
+
 #[derive(Clone, PartialEq, Eq, Zeroize, ZeroizeOnDrop)]
 pub struct CompressedParameterSet([u8; MAX_ALLOWED_HSS_LEVELS]);
 
@@ -260,6 +267,10 @@ impl CompressedParameterSet {
         }
 
         for (i, parameter) in parameters.iter().enumerate() {
+            if !is_supported_on_level(parameter, i) {
+                return Err(());
+            }
+
             let lmots = parameter.get_lmots_parameter();
             let lms = parameter.get_lms_parameter();
 
@@ -296,7 +307,12 @@ impl CompressedParameterSet {
                 return Err(());
             }
 
-            result.extend_from_slice(&[HssParameter::new(lmots, lms)]);
+            let parameter = HssParameter::new(lmots, lms);
+            if !is_supported_on_level(&parameter, level) {
+                return Err(());
+            }
+
+            result.extend_from_slice(&[parameter]);
         }
 
         if result.is_empty() {
